@@ -599,8 +599,9 @@ theorem alookup_aset_other {α : Type} (l : List (Nat × α)) (k k' : Nat) (a : 
 /-- voting power of a list of validator indices -/
 def powSum (powers : List Nat) (who : List Nat) : Nat := (who.map (fun i => powers.getD i 0)).sum
 
-/-- a block's vote record is consistent: distinct validators, `sum` is their power -/
-def BVOK (powers : List Nat) (bv : BV) : Prop := bv.who.Nodup ∧ bv.sum = powSum powers bv.who
+/-- a block's vote record is consistent: distinct validators of the set, `sum` is their power -/
+def BVOK (powers : List Nat) (bv : BV) : Prop :=
+  bv.who.Nodup ∧ bv.sum = powSum powers bv.who ∧ ∀ i ∈ bv.who, i < powers.length
 
 /-- a vote set is consistent, and its `maj23` is backed by a quorum of recorded votes for that value -/
 def VOK (powers : List Nat) (vs : VSet) : Prop :=
@@ -612,20 +613,25 @@ theorem VOK_empty (powers : List Nat) : VOK powers VSet.empty := by
   · intro v bv h; simp [VSet.empty, alookup] at h
   · intro v h; simp [VSet.empty] at h
 
-theorem BV_add_ok {powers : List Nat} {bv : BV} (h : BVOK powers bv) (i : Nat) :
+theorem BV_add_ok {powers : List Nat} {bv : BV} (h : BVOK powers bv) (i : Nat) (hi : i < powers.length) :
     BVOK powers (bv.add i (powers.getD i 0)) ∧ bv.sum ≤ (bv.add i (powers.getD i 0)).sum := by
   unfold BV.add
   split
   · exact ⟨h, Nat.le_refl _⟩
   · rename_i hc
-    refine ⟨⟨?_, ?_⟩, by simp⟩
+    refine ⟨⟨?_, ?_, ?_⟩, by simp⟩
     · simp only [List.nodup_cons]; exact ⟨by simpa using hc, h.1⟩
-    · simp [powSum, h.2]; omega
+    · simp [powSum, h.2.1]; omega
+    · intro j hj
+      rcases List.mem_cons.1 hj with rfl | hj
+      · exact hi
+      · exact h.2.2 j hj
 
-theorem tally_ok {powers : List Nat} {s : VSet} (hs : VOK powers s) (i : Nat) (v : Value) (bv : BV) (hbv : BVOK powers bv)
+theorem tally_ok {powers : List Nat} {s : VSet} (hs : VOK powers s) (i : Nat) (hi : i < powers.length) (v : Value) (bv : BV)
+    (hbv : BVOK powers bv)
     (hlk : alookup s.byBlock v = some bv ∨ alookup s.byBlock v = none) :
     VOK powers (s.tally powers.sum i (powers.getD i 0) v bv) := by
-  obtain ⟨hb', hle⟩ := BV_add_ok hbv i
+  obtain ⟨hb', hle⟩ := BV_add_ok hbv i hi
   have part1 : ∀ v' bv'', alookup (aset s.byBlock v (bv.add i (powers.getD i 0))) v' = some bv'' → BVOK powers bv'' := by
     intro v' bv'' h
     by_cases e : v' = v
@@ -651,7 +657,7 @@ theorem tally_ok {powers : List Nat} {s : VSet} (hs : VOK powers s) (i : Nat) (v
     exact ⟨_, alookup_aset_same _ _ _, hc.2.1⟩
   · exact ⟨part1, keep⟩
 
-theorem addVerified_ok {powers : List Nat} {s : VSet} (hs : VOK powers s) (i : Nat) (v : Value) :
+theorem addVerified_ok {powers : List Nat} {s : VSet} (hs : VOK powers s) (i : Nat) (hi : i < powers.length) (v : Value) :
     VOK powers (s.addVerified powers.sum i (powers.getD i 0) v).1 := by
   unfold VSet.addVerified
   split
@@ -664,27 +670,28 @@ theorem addVerified_ok {powers : List Nat} {s : VSet} (hs : VOK powers s) (i : N
     split
     · rename_i bv hb
       split
-      · exact tally_ok h1 i v bv (h1.1 v bv hb) (Or.inl hb)
+      · exact tally_ok h1 i hi v bv (h1.1 v bv hb) (Or.inl hb)
       · exact h1
     · exact h1
   · simp only
     have h1 : VOK powers { s with votes := aset s.votes i v, sum := s.sum + powers.getD i 0 } := ⟨hs.1, hs.2⟩
     split
     · rename_i bv hb
-      exact tally_ok h1 i v bv (h1.1 v bv hb) (Or.inl hb)
+      exact tally_ok h1 i hi v bv (h1.1 v bv hb) (Or.inl hb)
     · rename_i hb
-      exact tally_ok h1 i v _ ⟨by simp, by simp [powSum]⟩ (Or.inr hb)
+      exact tally_ok h1 i hi v _ ⟨by simp, by simp [powSum], by simp⟩ (Or.inr hb)
 
-theorem VSet_add_ok {powers : List Nat} {s : VSet} (hs : VOK powers s) (n i : Nat) (v : Value) (ok : Bool) :
-    VOK powers (s.add n powers.sum i (powers.getD i 0) v ok).1 := by
+theorem VSet_add_ok {powers : List Nat} {s : VSet} (hs : VOK powers s) (i : Nat) (v : Value) (ok : Bool) :
+    VOK powers (s.add powers.length powers.sum i (powers.getD i 0) v ok).1 := by
   unfold VSet.add
   split
   · exact hs
+  rename_i hn
   split
   · exact hs
   split
   · exact hs
-  · exact addVerified_ok hs i v
+  · exact addVerified_ok hs i (by omega) v
 
 theorem setPeerMaj_ok {powers : List Nat} {s : VSet} (hs : VOK powers s) (peer : Nat) (v : Value) :
     VOK powers (s.setPeerMaj peer v) := by
@@ -711,15 +718,16 @@ theorem setPeerMaj_ok {powers : List Nat} {s : VSet} (hs : VOK powers s) (peer :
     · exact ⟨hs.1, hs.2⟩
     · exact upd _ (hs.1 v bv hb) (fun b0 h0 => by rw [hb] at h0; cases h0; exact Nat.le_refl _)
   · rename_i hb
-    exact upd _ ⟨by simp, by simp [powSum]⟩ (fun b0 h0 => by rw [hb] at h0; cases h0)
+    exact upd _ ⟨by simp, by simp [powSum], by simp⟩ (fun b0 h0 => by rw [hb] at h0; cases h0)
 
 /-- **maj23_has_quorum**: in a consistent vote set a recorded +2/3 majority for `v` means that distinct validators holding MORE THAN
 two thirds of the total power have a recorded vote for `v` -/
 theorem maj23_has_quorum {powers : List Nat} {vs : VSet} (h : VOK powers vs) {v : Value} (hm : vs.maj23 = some v) :
-    ∃ who : List Nat, who.Nodup ∧ (∃ bv, alookup vs.byBlock v = some bv ∧ bv.who = who) ∧ 3 * powSum powers who > 2 * powers.sum := by
+    ∃ who : List Nat, who.Nodup ∧ (∀ i ∈ who, i < powers.length) ∧ (∃ bv, alookup vs.byBlock v = some bv ∧ bv.who = who) ∧
+      3 * powSum powers who > 2 * powers.sum := by
   obtain ⟨bv, hb, hq⟩ := h.2 v hm
-  obtain ⟨hn, hsum⟩ := h.1 v bv hb
-  refine ⟨bv.who, hn, ⟨bv, hb, rfl⟩, ?_⟩
+  obtain ⟨hn, hsum, hlt⟩ := h.1 v bv hb
+  refine ⟨bv.who, hn, hlt, ⟨bv, hb, rfl⟩, ?_⟩
   rw [← hsum]
   unfold quorum at hq
   omega
@@ -775,8 +783,8 @@ theorem recordVote_tbl (s : St) (t r idx v src : Nat) (ok : Bool) (ht : TblOK s)
     simp only
     apply putVS_tbl h1t
     split
-    · exact VSet_add_ok (h1t r).1 _ _ _ _
-    · exact VSet_add_ok (h1t r).2 _ _ _ _
+    · exact VSet_add_ok (h1t r).1 _ _ _
+    · exact VSet_add_ok (h1t r).2 _ _ _
 
 theorem setPeerMaj_tbl (s : St) (r t src v : Nat) (ht : TblOK s) : TblOK (setPeerMaj s r t src v) := by
   unfold setPeerMaj
@@ -1365,8 +1373,8 @@ theorem step_Good (s : St) (i : In) (hg : Good s) (ht : WellTimed s i) : Good (s
 the node's own prevote table of round `r` holds votes for `v` from distinct validators with MORE THAN two thirds of the power -/
 theorem node_precommit_has_two_thirds (s : St) (i : In) (hg : Good s) (ht : WellTimed s i) (h r v : Nat)
     (hm : Out.vote tPrecommit h r v ∈ (stepCore s i).out) (hv : v ≠ 0) :
-    ∃ who : List Nat, who.Nodup ∧ (∃ bv, alookup ((stepCore s i).pvs r).byBlock v = some bv ∧ bv.who = who) ∧
-      3 * powSum s.powers who > 2 * s.powers.sum := by
+    ∃ who : List Nat, who.Nodup ∧ (∀ j ∈ who, j < s.powers.length) ∧
+      (∃ bv, alookup ((stepCore s i).pvs r).byBlock v = some bv ∧ bv.who = who) ∧ 3 * powSum s.powers who > 2 * s.powers.sum := by
   have hs := Spec_unfold hg.1 (stepCore_Spec s i ht)
   have hmaj := (node_precommit_needs_polka s i hg.1 ht h r v hm hv).2
   have hok := (hs.2.2.2.1 hg.2 r).1
@@ -1377,8 +1385,8 @@ theorem node_precommit_has_two_thirds (s : St) (i : In) (hg : Good s) (ht : Well
 round holds precommits for it from distinct validators with more than two thirds of the power -/
 theorem node_commit_has_two_thirds (s : St) (i : In) (hg : Good s) (ht : WellTimed s i) (h r v : Nat)
     (hm : Out.commit h r v ∈ (stepCore s i).out) :
-    v ≠ 0 ∧ ∃ who : List Nat, who.Nodup ∧ (∃ bv, alookup ((stepCore s i).pcs r).byBlock v = some bv ∧ bv.who = who) ∧
-      3 * powSum s.powers who > 2 * s.powers.sum := by
+    v ≠ 0 ∧ ∃ who : List Nat, who.Nodup ∧ (∀ j ∈ who, j < s.powers.length) ∧
+      (∃ bv, alookup ((stepCore s i).pcs r).byBlock v = some bv ∧ bv.who = who) ∧ 3 * powSum s.powers who > 2 * s.powers.sum := by
   have hs := Spec_unfold hg.1 (stepCore_Spec s i ht)
   obtain ⟨_, hv, hmaj⟩ := node_commit_needs_precommits s i hg.1 ht h r v hm
   have hok := (hs.2.2.2.1 hg.2 r).2
